@@ -436,7 +436,18 @@ func MergeFuncUpdateCgroup(resource ResourceUpdater, mergeCondition MergeConditi
 	klog.V(6).Infof("merge update cgroup %v with merged value[%v], original new[%v], old[%v]",
 		c.Path(), mergedValue, c.value, oldStr)
 	// suppose current value is different
-	return resource, cgroupFileWrite(c.parentDir, c.file, mergedValue)
+	if err = cgroupFileWrite(c.parentDir, c.file, mergedValue); err != nil {
+		return resource, err
+	}
+	// the returned updater is cached as the last written one, so it must carry the value actually written;
+	// otherwise a merged value which differs from the new value (e.g. the union of cpusets) is never replaced
+	// by the new value in the following exact update.
+	if mergedValue != c.value {
+		merged := resource.Clone().(*CgroupResourceUpdater)
+		merged.value = mergedValue
+		return merged, nil
+	}
+	return resource, nil
 }
 
 // MergeConditionIfValueIsLarger returns a merge condition where only do update when the new value is larger.
